@@ -410,11 +410,11 @@ def judge_distribution(ctx, case, name, out, wit, mech=None, want=None):
         ctx.event("explorer-over-budget")
         return None
     tv = L.tv_distance(got, want)
-    if tv > 1e-6 and mech is None and name == "defer_measurements" and _defer_condition_facts()[1] and _defer_bitmask_explains(case, got):
-        mech = K_DEFER_BITMASK
     if tv > 1e-6 and mech is None and L.tv_distance(_sorted_instances(got), _sorted_instances(want)) <= 1e-6:
         # explained-by: only the order of the instances recorded under a repeated key differs
         mech = K_KEY_ORDER + name
+    elif tv > 1e-6 and mech is None and name == "defer_measurements" and _defer_condition_facts()[1] and _defer_bitmask_explains(case, got):
+        mech = K_DEFER_BITMASK  # (repaired in the repository: reported as a violation if it ever returns)
     return ctx.check(tv <= 1e-6 and abs(total - 1) < 1e-6, "distribution-preserved", mech or "C06:distribution-changed:" + name,
                      lambda: "exact record distribution of the output differs from the input program's by TV %.3g" % tv,
                      got={str(k): v for k, v in sorted(got.items(), key=lambda kv: -kv[1])[:8]},
@@ -827,8 +827,13 @@ def sec_measured(ctx, rng, case_no):
             continue
         w2 = dict(wit, options=_optdesc(kw), context=variant)
         if ent.name == "dephase_measurements" and has_ctrl:
-            # documented: ValueError when the circuit contains classical controls
-            only_tagged = all(s.get("tags") for s in items if s["t"] == "C")
+            # documented: ValueError when the circuit contains classical controls; operations carrying a tag listed in
+            # tags_to_ignore are, as for every transformer, not looked at - a circuit whose only controls are ignored is accepted
+            seen_ctrl = [s for s in items if s["t"] == "C" and not ("tags" in variant and IG in (s.get("tags") or ()))]
+            if not seen_ctrl:
+                ctx.event("dephase_measurements:only-ignored-controls")
+                continue
+            only_tagged = all(s.get("tags") for s in seen_ctrl)
             ctx.check(False, "documented-rejection", K_DEPHASE_TAGGED if only_tagged else "C06:rejection-missing:dephase_measurements",
                       "no ValueError although the circuit contains classically controlled operations", output=repr(res)[:2500], **w2)
             continue
